@@ -86,6 +86,7 @@ type TDoc struct {
 	P     *TObj
 	NilP  *TObj
 	M     map[string]interface{}
+	Grid  [][]int
 	Any   []interface{}
 	S     string
 	N     float64
@@ -100,6 +101,7 @@ func buildTyped(name string) interface{} {
 			PObjs: []*TObj{{2, "y", nil}, {1, "x", []int{9}}},
 			P:     &TObj{7, "p", []int{4, 5}},
 			M:     map[string]interface{}{"a": []interface{}{3.0, 1.0, 2.0}, "b": map[string]interface{}{"c": 1.0}},
+			Grid:  [][]int{{1, 2}, {}, {3}},
 			Any:   []interface{}{map[string]interface{}{"k": 2.0}, map[string]interface{}{"k": 1.0}, map[string]interface{}{"k": 3.0}},
 			S:     "héllo",
 			N:     -3.5,
@@ -125,6 +127,8 @@ var typedExprs = []string{
 	"pObjs[*].s", "pObjs[0].k", "p.s", "p.t[0]", "nilP.s", "nilP", "m.a", "sort_by(m.a, &@)", "m.b.c", "any[*].k", "sort_by(any, &k)", "sort_by(any, &k)[0]", "reverse(any)", "max_by(any, &k)",
 	"s", "n", "abs(n)", "length(s)", "length(nums)", "objs[].t[]", "[nums, strs]", "{a: p, b: objs[0]}", "@", "to_array(@)", "type(@)", "not_null(nilP, p).s",
 	"[*].k", "[?k > `1`]", "[0].t", "[::-1]", "[]", "@[0].s", "length(@)",
+	"grid[]", "grid[][]", "grid[0]", "grid[*][0]", "grid[?@]", "to_number(nums)", "type(nums)", "type(p)", "!p", "!nilP", "!nums", "!objs", "pObjs[?@]", "pObjs[?k > `1`].s", "objs[?abs(s)]", "objs[?k].abs(s)",
+	"objs[*].abs(s)", "nums[?@ > `1`]", "strs[?@ == 'a']", "p || nilP", "nilP || p", "nilP && p", "length(objs)", "reverse(objs)", "sort_by(objs, &k)", "max_by(objs, &k)", "map(&k, objs)", "to_array(nums)", "not_null(nilP, nums)",
 	"objs[*].k", "ptr.p.s", "ptr.objs[*].s", "nums[0]", "gen | sort_by(@, &@)", "sort_by(gen, &@)", "reverse(gen)", "sort(gen)", "reverse(nums)", "to_string(ptr.p)",
 }
 
